@@ -314,6 +314,24 @@ for _pid, _extra in ROUND7.items():
     CLAIMS[_pid]["text"] = CLAIMS[_pid]["text"].rstrip() + " " + _extra
 
 
+
+# clauses added in the eighth seeded round
+ROUND8 = {
+    "C01": "R01.2 also treats data.entry(k) as a keyed read.",
+    "C04": "R04.10 also: a text slice by a non-constant byte offset is dominated by is_char_boundary.",
+    "C05": "R05.12 the executor's watched_keys / queued_commands / in_transaction are touched only by MULTI/EXEC/DISCARD/WATCH/UNWATCH and execute()'s queueing gate.",
+    "C11": "R11.16 every ManifestManager::new in the streaming layer receives the configured prefix untransformed.",
+    "C12": "R12.13 (= C14 R14.17) no read-side size limit on segment records. R12.8 also: write_delta only appends to the record buffer.",
+    "C13": "R13.18 (= C11 R11.2) recovery hands over every decoded delta of every listed segment.",
+    "C14": "R14.17 the segment record iterator decodes with the writer's unbounded configuration. R14.12 also: write_delta is append-only.",
+    "C15": "R15.15 the Array arm of every RespValue encoder recurses per element (no work list).",
+    "C19": "R19.9 GossipState::drain_outbound hands over the queued messages unedited.",
+    "C20": "R20.3's exception for get_keys_in_buckets requires the configured default max_keys_per_sync to be at least 1000.",
+}
+for _pid, _extra in ROUND8.items():
+    CLAIMS[_pid]["text"] = CLAIMS[_pid]["text"].rstrip() + " " + _extra
+
+
 def main():
     for _pid, _extra in ROUND5.items():
         CLAIMS[_pid]["text"] = CLAIMS[_pid]["text"].rstrip() + " " + _extra
